@@ -230,13 +230,20 @@ def run_history(cls, history, keyf=lambda r: r, is_set=False):
 
 
 def catalogue(cl, kind, N, maxdepth=40, cap=None):
-    """-> (dict template -> witness history, stats).  Uses int keys 0..N-1."""
+    """-> (dict template -> witness history, stats).  Uses int keys 0..N-1.
+
+    The search runs the REAL code on concrete histories.  A history on which the
+    code raises, or whose result fails the cheap sanity checks below, is not
+    expanded; it is recorded in stats['failed'] and turned by the property
+    generators into a solver-run obligation (re-keyed history + full oracle), so
+    that it is reported through the normal counterexample/replay channel."""
     is_set = kind == 'TreeSet'
     cls = cl[kind]
     leaf_types = (cl['Set'] if is_set else cl['Bucket'],)
     seen = {('E',): ()}
     shapes = {('E',): ()}
     frontier = [()]
+    failed = []
     d = 0
     while frontier and d < maxdepth:
         nxt = []
@@ -246,8 +253,17 @@ def catalogue(cl, kind, N, maxdepth=40, cap=None):
                 (present.add if op == 'i' else present.discard)(k)
             for k in range(N):
                 h2 = h + ((('d', k),) if k in present else (('i', k),))
-                t = run_history(cls, h2, is_set=is_set)
-                a = raw(t, is_set, leaf_types)
+                try:
+                    t = run_history(cls, h2, is_set=is_set)
+                    a = raw(t, is_set, leaf_types)
+                    p2 = sorted(present ^ {k})
+                    if list(t.keys()) != p2 or sorted(set(leaf_keys(a))) != p2 or len(leaf_keys(a)) != len(p2):
+                        raise AssertionError('contents differ from the history')
+                    t._check()
+                except Exception as e:      # noqa: the code under test misbehaves on a concrete history
+                    if len(failed) < 50:
+                        failed.append((h2, '%s: %s' % (type(e).__name__, e)))
+                    continue
                 if a not in seen:
                     seen[a] = h2
                     nxt.append(h2)
@@ -258,7 +274,8 @@ def catalogue(cl, kind, N, maxdepth=40, cap=None):
         if cap and len(shapes) >= cap:
             break
     stats = {'N': N, 'abs_states': len(seen), 'shapes': len(shapes), 'depth': d,
-             'saturated': not frontier}
+             'saturated': not frontier, 'failed_histories': len(failed),
+             'failed': [[[list(x) for x in h], e] for h, e in failed[:12]]}
     return shapes, stats
 
 
